@@ -133,3 +133,32 @@ PROPS['C11'] = dict(
          'judged against the MSB-first bits of the string (Strings!SBit); distinct = distinct inputs, non-trivial = non-empty string and w >= 1',
     assumptions=TRUST,
 )
+
+TS = dict(module='Trace_Strs', cfg='Trace_Strs.cfg')
+PROPS['C08'] = dict(
+    trace=TS, mc=dict(quick=[], thorough=[]), need_kinds=['bw', 'bwtostr', 'bwfd', 'bwstrs'],
+    rule='bw: (string, width) for ALL 1-byte strings x 4 widths, 2-byte strings (quick: 1500 sampled; thorough: all 65,536) and random strings up to 40 bytes: FromStr, Get at every index, ToStr(FromStr) and ToStr of every prefix of the word list; '
+         'bwtostr: in-range word lists; bwfd: FirstDiff on pairs with common prefixes of every length and single-bit differences over ~60 windows (from >= end, end beyond either string, end = -1); bwstrs: FromStrs/ToStrs; '
+         'judged against Strs!FromStrD/ToStrD/FirstDiffD; distinct = distinct inputs, non-trivial = non-empty string',
+    assumptions=TRUST,
+)
+PROPS['C09'] = dict(
+    trace=TS, mc=dict(quick=[], thorough=[]), need_kinds=['bscmp', 'bsupto'],
+    rule='bscmp: groups of 8 related ranges (prefixes of every bit length, one-bit differences, extensions, aligned/unaligned ends, empty ranges, unaligned from) over strings of 0..20 bytes crossing the 8-byte switch, Len of each and Cmp of ALL ordered pairs; '
+         'every (from,to) of strings of <= 3 bytes; bsupto: one encoded range with 12 plain strings (empty, the payload, byte prefixes, one byte / much longer, garbage in masked-out bits, one flipped bit): CmpUpto, StrCmpUpto and StrCmpUpto after a call with an empty string; '
+         'judged against lexicographic order of the bit strings (Strings!LexCmp); distinct = distinct inputs',
+    assumptions=TRUST,
+)
+PROPS['C16'] = dict(
+    trace=TS, mc=dict(quick=[], thorough=[]), need_kinds=['fdb', 'cntp'],
+    rule='key sets of 2-16 keys with a shared prefix of 0..20 bytes (crossing 8 and 16), tails over {00,01,a,b,80,ff} / {a,b,c} / all bytes, single-bit differences in bytes 7,8,9,15,16, key+NULs, key = prefix of successor, empty key; '
+         'fdb: FirstDiffBits (sorted and shuffled); cntp: New(keys).CountPrefixes over all sub-ranges (small sets) and 14 random sub-ranges x m in {1,2,3,8,9,17,64}; judged against Strs!FirstDiffBitD / CountPrefixesD; '
+         'distinct = distinct inputs, non-trivial = at least 2 keys',
+    assumptions=TRUST,
+)
+PROPS['C17'] = dict(
+    trace=TS, mc=dict(quick=[], thorough=[]), need_kinds=['shard'],
+    rule='strictly ascending key lists (families of C16, plus all keys differing in the first byte, single key, 100-2000 keys over a 3-letter alphabet) x maxSize in {1,2,3,len-1,len,len+1,...}; '
+         'the returned (lengths, boundaries) are judged by the relation Strs!ShardOK (any valid sharding is accepted); distinct = distinct inputs, non-trivial = at least 2 keys',
+    assumptions=TRUST,
+)
